@@ -87,6 +87,18 @@ def check(env, rep, tier):
                         ok4 = False
                     if more not in (0, 1):
                         ok4 = False
+        ok6, n6 = True, 0
+        for s, rv in tr2.res:
+            if s.ghost.get("has_Block2") is False:
+                n6 += 1
+                ek = [k for k in s.cells if isinstance(k, tuple) and k[0] == "h" and str(k[1]).startswith("entry")]
+                lb = tr2.I.read(s, Place(ek[0], (("f", tr2.sf.get("last_block2")),))) if ek else None
+                if not (isinstance(lb, EnumV) and list(lb.variants) == [0]):
+                    ok6 = False
+        rep.ob("C08.2", "no-block2-forgets-preference", ok6 and n6 > 0,
+               "a request without a Block2 option leaves an earlier request's Block2 value remembered in the per-key state: "
+               "the next reply is fragmented from a stale block number / size (paths: %d)" % n6, site2,
+               sample={"rule": "C08.2", "paths_without_block2": n6})
         rep.ob("C08.3", "served=>handled", ok3 and n_served > 0,
                "a follow-up block served from the cache is still passed to the application (Ok(false))", site2,
                sample={"rule": "C08.3", "served_paths": n_served})
